@@ -60,7 +60,7 @@ Proof. vm_compute. split; reflexivity. Qed.
 (* ---- tie to the current source (translator): the order of the steps of CopyHandle::new — in particular the
    same-file check (23) and the dangling-link check (26: lstat of a destination the probe called absent) come after
    the probe of the destination (22) and BEFORE the first mutating step (rename 1, create+truncate 2, size 3) ---- *)
-Theorem C03_src_copy_new_order : x_copy_new_steps = [20; 21; 22; 23; 98; 26; 98; 24; 25; 1; 2; 3]%N.
+Theorem C03_src_copy_new_order : x_copy_new_steps = [20; 21; 22; 23; 98; 26; 98; 27; 97; 24; 25; 1; 2; 28; 3]%N.
 Proof. exact x_copy_new_steps_ok. Qed.
 
 (* ---- the glue functions this property's hand-written model mirrors are, token for token, the ones it was
@@ -89,3 +89,9 @@ Print Assumptions C03_src_pin_parfile_copy_worker.
 Print Assumptions C03_src_pin_parblock_dispatch_worker.
 Print Assumptions C03_special_no_self_unlink.
 Print Assumptions C03_no_write_through_dangling_link.
+
+(* ---- more glue on this property's path, pinned token for token ---- *)
+From XcpPins Require Import Pin_operations_tree_walker.
+Theorem C03_src_pin_operations_tree_walker : pin_unchanged name_operations_tree_walker.
+Proof. exact pin_operations_tree_walker. Qed.
+Print Assumptions C03_src_pin_operations_tree_walker.
